@@ -507,7 +507,43 @@ def rule_queens(F, R):
         if not ok:
             R.violation('n_queens_gen::main / N / coverage of %s lines' % kind, 'N',
                         'the %s constraints must cover every line %s .. %s; the loops produce %s' % (kind, pshow(lo), pshow(hi), [(pshow(a), pshow(b)) for a, b in ivs] or 'none'))
-    # nothing else constrains the board: the remaining top-level text is comments and the closing `true`
+    # nothing else constrains the board: outside the loop nests the generator writes remarks, blank lines and the closing `true` only,
+    # and it has no way out before the last constraint is written (no `return` other than the error exits of `?`)
+    import engine_l
+    loop_ids = set()
+    for (_fl, e0) in top_level_loops(t['body']):
+        for x in walk(e0): loop_ids.add(id(x))
+    extra = []
+    written = []
+    for wf in walk(t['body']):
+        if wf['k'] == 'Call' and (callee_name(wf) or '').endswith('write_fmt') and id(wf) not in loop_ids:
+            txt = ''.join(tx for _n, tx in rendered_texts(wf))
+            written.append((wf, txt))
+    for node, text in written:
+        try: toks = engine_l.tokenize_text(PATTERN[0], text)
+        except Exception: toks = ['?']
+        if toks not in ([], ['True']): extra.append((text.strip()[:50], toks, node.get('loc')))
+    R.count('N:texts-outside-nests'); R.obligation(not extra, 'N other text')
+    if extra:
+        R.violation('n_queens_gen::main / N / other formula text', 'N', 'outside the constraint loops only remarks and the closing `true` may be written; found %r (tokens %s)' % (extra[0][0], extra[0][1]), extra[0][2])
+    def early_returns(e):
+        out = []
+        def rec(x):
+            if isinstance(x, list):
+                for y in x: rec(y)
+                return
+            if not isinstance(x, dict): return
+            if x.get('k') == 'Return': out.append(x); return
+            if x.get('k') == 'Match' and 'TryDesugar' in str(x.get('source')): rec(x.get('scrutinee')); return
+            if x.get('k') == 'Closure': return
+            for k_, v in x.items():
+                if isinstance(v, (dict, list)) and k_ not in ('ty', 'pat'): rec(v)
+        rec(e)
+        return out
+    rets = early_returns(t['body'])
+    R.count('N:early-returns', len(rets)); R.obligation(not rets, 'N no early return')
+    if rets:
+        R.violation('n_queens_gen::main / N / early return', 'N', 'main leaves before the constraint families are written on some path (a formula without them does not describe the board)', rets[0].get('loc'))
     lits = literal_texts(t['body'])
     tail_true = any(s.strip() == 'true' for s in lits)
     R.obligation(tail_true, 'N closing true')
